@@ -336,6 +336,11 @@ fn format_newline_sequence(newline_sequence: &NewlineSequence, threshold: usize)
     }
 }
 
+#[cfg(feature = "fuellabs_sway_verif")]
+pub(crate) fn verif_format_newline_sequence(sequence_length: usize, threshold: usize) -> String {
+    format_newline_sequence(&NewlineSequence { sequence_length }, threshold)
+}
+
 #[inline]
 fn is_alphanumeric(c: char) -> bool {
     c.is_alphanumeric() || c == '_' || c == '.'
